@@ -313,7 +313,7 @@ def check_targets(o: Out, bdir: str, src: str, targets: T.List[dict], m: mn.Mani
                 for g in e.get('generated_sources', []):
                     try:
                         with open(g, encoding='utf-8') as f:
-                            inc += [abs_in(os.path.dirname(g), mm.group(1)) for mm in re.finditer(r'#include\s*[<"]([^>"]+)[>"]', f.read())]
+                            inc += [abs_in(os.path.dirname(g), mm.group(1) or mm.group(2)) for mm in re.finditer(r'(?m)^#include\s*(?:<(.+)>|"(.+)")\s*$', f.read())]
                     except OSError:
                         pass
                 if set(inc) != {os.path.normpath(u) for u in us}:
